@@ -58,5 +58,10 @@ def fromPacket (p : PHdr) (inPort : Nat) : OfMatch := fromHeaders (v.extract tru
 /-- `entry_for_packet(packet, in_port)` -/
 def entryForPacket (tbl : Table α) (p : PHdr) (inPort : Nat) : Option (Entry α) := lookup tbl (v.fromPacket p inPort)
 
+/-- the answers to a sequence of `entry_for_packet` calls on one table with no table operation in between: the model keeps no state
+    between lookups (the code must not either — a lookup cache, say, has to be invisible) -/
+def lookupSeq (tbl : Table α) (frames : List (PHdr × Nat)) : List (Option (Entry α)) :=
+  frames.map fun x => v.entryForPacket tbl x.1 x.2
+
 end Variant
 end Pox.OF
